@@ -19,6 +19,11 @@ t_bool Logic__isConstant__PTRef(void *self, struct PTRef t) { return nd(t)->kind
 t_bool ArithLogic__isTimes__PTRef(void *self, struct PTRef t) { return nd(t)->kind == K_TIMES; }
 struct Pterm *Logic__getPterm__PTRef_65755a(void *self, struct PTRef t) { return (struct Pterm *)nd(t); }
 struct Pterm *Logic__getPterm__PTRef(void *self, struct PTRef t) { return (struct Pterm *)nd(t); }
+/* further Logic queries a variant of the code may use */
+t_bool ArithLogic__yieldsSortInt__PTRef(void *self, struct PTRef t) { return 1; }
+t_bool ArithLogic__yieldsSortReal__PTRef(void *self, struct PTRef t) { return 0; }
+struct PTRef ArithLogic__getTerm_IntOne(void *self) { struct PTRef r; r.x = 0; g_arena[0].kind = K_CONST; g_arena[0].nargs = 0; return r; }
+struct PTRef ArithLogic__getTerm_RealOne(void *self) { struct PTRef r; r.x = 0; g_arena[0].kind = K_CONST; g_arena[0].nargs = 0; return r; }
 t_int Pterm__size(void *self) { return ((struct node *)self)->nargs; }
 struct PTRef Pterm__op_index(void *self, t_int i) { struct node *n = (struct node *)self;
   __CPROVER_assert(i >= 0 && i < n->nargs, "Pterm index is smaller than the term's size"); struct PTRef r; r.x = n->args[(i >= 0 && i < 3) ? i : 0]; return r; }
